@@ -5,44 +5,9 @@
 #include <cstddef>
 #include <algorithm>
 #include <stdexcept>
-#ifndef VX_CAP
-#define VX_CAP 16
-#endif
 extern "C" { void vx_throw(void); bool vx_readNextLine(void); }
+#include <vx_bstring.h>
 namespace std {
-struct string {
-    char d[VX_CAP];
-    size_t n;
-    string() : n(0) { d[0] = 0; }
-    string(const string& o) : n(o.n) { for (size_t i = 0; i < VX_CAP; i = i + 1) d[i] = o.d[i]; }
-    string& operator=(const string& o) { n = o.n; for (size_t i = 0; i < VX_CAP; i = i + 1) d[i] = o.d[i]; return *this; }
-    string(const char* s) : n(0) { while (s[n] != 0) { d[n] = s[n]; n = n + 1; } d[n] = 0; }
-    size_t length() const { return n; }
-    size_t size() const { return n; }
-    // std::string::operator[]: defined for i <= size() (s[size()] is the terminator); anything beyond is out of bounds
-    char& operator[](size_t i) { __CPROVER_assert(i <= n, "string index <= size()"); return d[i]; }
-    const char& operator[](size_t i) const { __CPROVER_assert(i <= n, "string index <= size()"); return d[i]; }
-    void push_back(char c) { __CPROVER_assert(n + 1 < VX_CAP, "bounded string: capacity"); d[n] = c; n = n + 1; d[n] = 0; }
-    // position of the first occurrence of pat at or after pos, or npos
-    size_t find(const string& pat, size_t pos) const {
-        for (size_t i = pos; i + pat.n <= n; i = i + 1) {
-            bool ok = true;
-            for (size_t j = 0; j < pat.n; j = j + 1) if (d[i + j] != pat.d[j]) ok = false;
-            if (ok) return i;
-        }
-        return (size_t)-1;
-    }
-    size_t find(char c) const {
-        for (size_t i = 0; i < n; i = i + 1) if (d[i] == c) return i;
-        return (size_t)-1;
-    }
-    string substr(size_t pos, size_t len) const {
-        string r;
-        for (size_t i = pos; i < n && i - pos < len; i = i + 1) r.push_back(d[i]);
-        return r;
-    }
-    static const size_t npos = (size_t)-1;
-};
 struct ostream {
     string buf;
     ostream& operator<<(char c) { buf.push_back(c); return *this; }
